@@ -141,7 +141,12 @@ Definition op_table : list (string * kind) :=
                                                exception (finding F37, fixed) *)
     ("meas_add_counts", Mutator 0);        (* Measurements.add_counts extends the stored list *)
     ("ev_to_real", Mutator 0);              (* expectation_values_to_real rewrites and returns its argument *)
-    ("dict_normalize", Mutator 0) ].        (* normalize_measurement_outcome_distribution rescales the dict it is given *)
+    ("dict_normalize", Mutator 0);        (* normalize_measurement_outcome_distribution rescales the dict it is given *)
+  (* evaluating a circuit on a simulator: the runner counts the jobs it executed, so it is the receiver of an
+     in-place update; the circuit, the explicit initial state (a raw array, or the live amplitude array of a
+     wavefunction) and every other object are arguments and must stay as they were *)
+    ("sim_get_wavefunction", Mutator 0); ("sim_get_wavefunction0", Mutator 0); ("sim_run_and_measure", Mutator 0);
+    ("sim_exact_expectation", Mutator 0); ("sim_distribution", Mutator 0) ].
 
 Fixpoint assoc_kind (op : string) (t : list (string * kind)) : option kind :=
   match t with
